@@ -130,6 +130,9 @@ func (vc *VC) execGo(s *State, x *ast.GoStmt) {
 		w.assume(Forall([]*Term{z}, Eq(Select(w.heap[name], z), IntLit(0)), []*Term{Select(w.heap[name], z)}))
 	}
 	w.ghost["$inWorker"] = True
+	if _, ok := w.ghost["$fcalls"]; ok {
+		w.ghost["$fcalls"] = IntLit(0) // dynamic calls are counted per goroutine
+	}
 	for k := range w.ghost {
 		if strings.HasPrefix(k, "$call.") {
 			delete(w.ghost, k) // call records are per procedure
